@@ -83,6 +83,14 @@ def run(c):
         "normalises it (address.CleanDomain, as the harness does) before the pipeline sees the address; the LMTP "
         "per-command bookkeeping (one failure status per accepted RCPT command of an address, a command without one is "
         "answered 250) is the harness's copy of endpoint/smtp statusWrapper",
+        "how the configuration text spells the check list of a scope (own `check { }` directives or a leading reference "
+        "`check &name` to a named top-level `checks` block, op token g=) is not an input of the model: a scope is its list "
+        "of checks; the driver validates and drops the token, the parser-built pipeline must behave as the list says",
+        "a RCPT command that a global / source modifier expands into several addresses (alias ops, TestVerifC06Alias) is "
+        "NOT an input of the Lean model (its modifiers are identities): those runs are judged by the monitor only - each "
+        "result is a recipient of the message (shown once to every check of the block that handles it, its reject / "
+        "quarantine verdicts enforced); the runner's replay of earlier recipients to lazily created states is tolerated "
+        "there (a quarantine it raises is allowed, not demanded)",
     ]
     return c.finish(
         rule="random pipelines: 1-4 scripted checks (thorough: up to 7) placed in 1-3 of global / source / 1-3 destination blocks "
@@ -170,7 +178,16 @@ def run(c):
         "transaction 0, where either a block-only check Y rejects the connection / sender it is shown late or the block is "
         "flaky with X listed first (both make checkStates close the states of the group, X's live one included), schedule "
         "MAIL(0) RCPT(0) MAIL(1) then a random merge, X rejecting a later recipient / rejecting or quarantining the body of "
-        "transaction 0 and saying nothing about transaction 1; distinct = distinct op lines",
+        "transaction 0 and saying nothing about transaction 1; "
+        "round 11: 22% of the multi ops declare a named check group (top-level `checks verif_c06_grp { }` registered as a "
+        "module instance and initialised by the first reference, 1-5 members, 3 and 5 - lists with spare capacity - "
+        "favoured; op token g=) that 2-4 scopes (global / source / destination blocks, mostly on the path of a "
+        "transaction) reference with `check &verif_c06_grp` as their first check directive, each followed by 1-2 `check { }` "
+        "directives with checks of its own, 70% of the transactions with a verdict of such an own check (body, recipient, "
+        "sender, connection); TestVerifC06Alias (~140 alias ops): one RCPT command expanded by the scripted modifier of "
+        "the global or the source group into 2-4 addresses over 1-3 destination blocks (mostly one block), in 60% a "
+        "reject / quarantine verdict of a check of the block about a LATER result, SMTP and LMTP body paths; "
+        "distinct = distinct op lines",
         explanation="theorems over all configurations, envelopes, both body paths and all completion orders; model tied to "
         "check_runner.go / msgpipeline.go by differential runs on the real pipeline and by regenerated call lists (T1)",
         search=search,
